@@ -698,6 +698,56 @@ impl BitSeq {
     //@| if i < 64 { lemma_bit01(self.val, i as u64); }
 }
 
+// ---------------------------------------------------------------- collecting (FromIterator)
+/// an iterator of bits by the sequence it yields (ASSUMED iterator protocol: `next` yields the items in order, then None)
+pub struct BitSrc { pub es: Ghost<Seq<Bit>>, pub pos: Ghost<int> }
+impl BitSrc {
+    pub fn into_iter(self) -> (r: Self) ensures r == self { self }
+    #[verifier::external_body] pub fn next(&mut self) -> (r: Option<Bit>)
+        requires 0 <= old(self).pos@ <= old(self).es@.len()
+        ensures final(self).es@ == old(self).es@,
+            old(self).pos@ < old(self).es@.len() ==> (final(self).pos@ == old(self).pos@ + 1 && r == Some(old(self).es@[old(self).pos@])),
+            old(self).pos@ >= old(self).es@.len() ==> (final(self).pos@ == old(self).pos@ && r.is_none()),
+    { unimplemented!() }
+}
+/// `Bit::from(b)` for an item that already is a Bit (core's reflexive `impl From<T> for T`)
+pub fn bit_id_(b: Bit) -> (r: Bit) ensures r == b { b }
+/// `a << n` on u64 (rule R40): specified below the bit width only
+#[verifier::external_body] pub fn shl_any_(a: u64, n: usize) -> (r: u64) ensures n < 64 ==> r == a << (n as u64) { unimplemented!() }
+impl BitSeq {
+    /// collecting an iterator of bits: the sequence of ALL its items -- so more than 64 items are rejected (the call does not return), never truncated
+    pub fn from_iter(iter: BitSrc) -> (r: BitSeq)
+        requires iter.pos@ == 0, iter.es@.len() < usize::MAX,     // stated domain: fewer than 2^64 - 1 items, so the item counter itself does not wrap
+//@if B
+            iter.es@.len() <= 64,
+//@endif
+        ensures r.wf(), r@ =~= iter.es@.map(|j: int, x: Bit| x.b()),
+    //@body impl/FromIterator@BitSeq/from_iter for_iter=1 loops=1 shl_total=1 subst=Bit::from:bit_id_
+    //@+ sig
+    //@| fn from_iter<I: IntoIterator<Item = T>>(iter: I) -> Self
+    //@+ loop 0 header
+    //@| for b in iter.into_iter()
+    //@+ pre-raw
+    //@| let ghost es0 = iter.es@;
+    //@| assert((0u64 >> 0u64) == 0u64) by (bit_vector);
+    //@+ loop 0
+    //@| invariant __it0.es@ == es0, 0 <= __it0.pos@ <= es0.len(), len == __it0.pos@, es0.len() < usize::MAX,
+    //@|     len <= 64 ==> (hi_zero(val, len as int) && forall|j: int| 0 <= j < len ==> #[trigger] bit(val, j) == es0[j].b()),
+    //@| ensures __it0.pos@ == es0.len(),
+    //@| decreases es0.len() - __it0.pos@,
+    //@+ loop 0 begin-raw
+    //@| let ghost v0 = val;
+    //@+ loop 0 end
+    //@| if len <= 64 {
+    //@|     let n = (len - 1) as usize;
+    //@|     if n < 63 { lemma_hi_mono(v0, n as u64, (n + 1) as u64); lemma_set_hi(v0, n as u64, (n + 1) as u64); }
+    //@|     assert forall|j: int| 0 <= j < 64 implies bit(val, j) == (if j == n { b.b() } else { bit(v0, j) }) by {
+    //@|         lemma_set_bit(v0, n as u64, j as u64);
+    //@|         if j == n { lemma_hi_bit(v0, n as u64, j as u64); }
+    //@|     }
+    //@| }
+}
+
 /// the mask value as a spec function (what `mask` returns, by its contract)
 pub open spec fn val_mask_of(n: usize) -> u64 {
     if n >= 64 { 0xffff_ffff_ffff_ffffu64 } else { (((1u64 << (n as u64)) - 1u64) as u64) }
